@@ -219,6 +219,10 @@ def effective_adds(h):
 
 def oracle(prop, chk, case, h, inv, recs, live):
     n_lf = h['n_lf']
+    bad = [r for r in recs if r['eflr'] and r.get('undecodable')]
+    if bad:
+        chk.fail('histories:undecodable-set', case, f'{len(bad)} explicitly formatted record(s) of the written file do not decode '
+                                                    f'under the component grammar (e.g. a set without objects)')
     if len(inv) != n_lf:
         chk.fail('histories:logical-file-count', case, f'{len(inv)} logical files in the file, {n_lf} created')
         return
